@@ -59,8 +59,9 @@ def run(m: Model, r: Report, tier: str) -> None:
         return [a for a in ancestors(node, par) if isinstance(a, (ast.For, ast.While))]
 
     # ---------------------------------------------------------------- R1
-    MR = next((ast.unparse(a.targets[0]) for a in walk_no_nested(fn.node) if isinstance(a, ast.Assign) and "config.max_retry" in ast.unparse(a.value)
-               and "self.max_retry" in ast.unparse(a.value)), "max_retry")
+    # the local that carries the resolved retry bound: the one assigned from config.max_retry (canonical view: one assignment per source)
+    MR = next((ast.unparse(a.targets[0]) for a in walk_no_nested(fn.node) if isinstance(a, ast.Assign) and isinstance(a.targets[0], ast.Name)
+               and "config.max_retry" in ast.unparse(a.value)), "max_retry")
     IV = ast.unparse(FOR.target)
     r.check(ast.unparse(FOR.iter).replace(" ", "") in (f"range({MR}+1)", f"range(0,{MR}+1)", f"range(1+{MR})"), "R1", f"{fn.qualname}#attempts",
             f"retry loop iterates over {ast.unparse(FOR.iter)}; documented: max_retry + 1 attempts", loc=fn.loc)
